@@ -250,9 +250,31 @@ func genC05(g engine.G) *engine.Case {
 	o.FailP = 8
 	var sc *engine.Scenario
 	pal := engine.GenPalette(g, true, true)
+	sameName := g.Pct(30)
+	if sameName {
+		// same-name cycles: one name over two or three types, converters in
+		// both directions, inputs under that name with subtypes. The -1
+		// same-name discount and the +1 function hop make such cycles free,
+		// so equal-cost ties between direct and cyclic paths are frequent.
+		if k := 2 + g.Int(0, 1); k < len(pal.Types) {
+			pal.Types = pal.Types[:k]
+		}
+		pal.Names = pal.Names[:1]
+		pal.NameP = 85
+		pal.Subs, pal.SubP = engine.AllSubs, 35
+	}
 	b := engine.NewBuilder(g, pal, o)
 	b.Sc.Target = engine.GenTarget(g, pal, 3, o)
-	if g.Pct(55) {
+	if sameName {
+		for _, p := range b.Sc.Target.In {
+			b.Produce(p, g.Int(1, 3), 1)
+		}
+		b.AddReverse(90)
+		o1 := o
+		o1.MaxIn = 1
+		b.Opts = o1
+		b.Distract(2, 2)
+	} else if g.Pct(55) {
 		// (a) single-input converters, arbitrary cycles
 		for _, p := range b.Sc.Target.In {
 			b.Produce(p, g.Int(1, 5), 1)
